@@ -266,6 +266,13 @@ func (r *pwRun) checkMaster(after string) *core.Violation {
 		return pviol("read_error", fmt.Sprintf("reading the master (node %d) %s: %v", mi, after, err), at)
 	}
 	if k, det := r.compareNode(n, d); k != "" {
+		if at["catchup"] != "no" {
+			// a class of its own: the meta service made a raft follower the master partition; until
+			// that follower has caught up with the group's log it answers without the last
+			// acknowledged writes
+			at["diff"] = k
+			k = "stale_master_after_failover"
+		}
 		return pviol(k, fmt.Sprintf("%s, master partition %d on node %d: %s", after, r.c.meta.masterPt(), mi, det), at)
 	}
 	return nil
